@@ -67,6 +67,13 @@ theorem tstep_store_eq (p : Params) (st : Store) (i : Nat) (t : Thread)
 theorem ginv_claim {p st} (c : Option Nat) (h : GInv p st) : GInv p { st with claim := c } := by
   cases h; constructor <;> simp_all
 
+/-- the age of the claim key is invisible to the invariants -/
+theorem ginv_age {p st} (c : Option Nat) (a : Nat) (h : GInv p st) : GInv p { st with claim := c, claimAge := a } := by
+  cases h; constructor <;> simp_all
+
+theorem tinv_age {p st i t} (a : Nat) (h : TInv p st i t) : TInv p { st with claimAge := a } i t := by
+  cases h; constructor <;> simp_all
+
 theorem ginv_absent {p st} (h : GInv p st) : GInv p { st with present := false } := by
   cases h; constructor <;> simp_all
 
@@ -167,7 +174,7 @@ theorem step_start {p st i t} (hg : GInv p st) (ht : TInv p st i t) (hpc : t.pc 
       · exact stepOut_done _ hg ht hpc (by simp)
       · rename_i hc
         have hno := ht.noOk (by simp [hpc]) (by simp [hpc])
-        refine ⟨ginv_claim _ hg, ?_, .inl rfl, .inl rfl, rfl, ?_, ?_, rfl⟩
+        refine ⟨ginv_age _ _ hg, ?_, .inl rfl, .inl rfl, rfl, ?_, ?_, rfl⟩
         · have h5 := ht.resRok
           constructor <;> simp_all [Pc.inCS, Pc.critical, Pc.hasPending]
         · simp [hpc, Pc.hasPending]
@@ -288,6 +295,9 @@ theorem updateRec_fields (st : Store) (t : Thread) :
     (updateRec st t).1.okMap = st.okMap ∧ (updateRec st t).1.revDone = st.revDone ∧
     (updateRec st t).1.pending = st.pending ∧ (updateRec st t).1.claim = st.claim ∧
     (updateRec st t).1.created = st.created ∧ (updateRec st t).1.maps = st.maps ∧ (updateRec st t).1.nextId = st.nextId := by
+  unfold updateRec; (repeat' split) <;> simp
+
+theorem updateRec_age (st : Store) (t : Thread) : (updateRec st t).1.claimAge = st.claimAge := by
   unfold updateRec; (repeat' split) <;> simp
 
 theorem updateRec_ginv {p st} (t : Thread) (h : GInv p st) (hok : st.okMap = none) (hrev : st.revDone = false)
@@ -622,16 +632,83 @@ theorem inv_expire {p c} (h : Inv p c) : Inv p (step .repaired p c .expire) := b
       exact ⟨a1, a2, a3, a4, a5, a6, a7, a8, a9⟩
   · exact h
 
-theorem inv_step {p c} (e : Ev) (h : Inv p c) : Inv p (step .repaired p c e) := by
+/-- A stall that does not outlast the lease only ages the claim key. -/
+theorem inv_stall {p c} (h : Inv p c) (hl : c.st.claimAge + 1 < p.lease) : Inv p (step .repaired p c .stall) := by
+  simp only [step]
+  split
+  · exact h
+  · have hn : ¬ p.lease ≤ c.st.claimAge + 1 := by omega
+    simp only [hn, ↓reduceIte]
+    refine ⟨?_, ?_, h.o, h.pendOwner, h.okOwner⟩
+    · have := ginv_age c.st.claim (c.st.claimAge + 1) h.g
+      simpa using this
+    · intro i t hi hs; exact tinv_age _ (h.t i t hi hs)
+
+theorem inv_step {p c} (e : Ev) (h : Inv p c) (hl : e = .stall → c.st.claimAge + 1 < p.lease) :
+    Inv p (step .repaired p c e) := by
   cases e with
   | create => exact inv_create h
   | expire => exact inv_expire h
   | th i => exact inv_th i h
+  | stall => exact inv_stall h (hl rfl)
 
-theorem inv_run {p c} (evs : List Ev) (h : Inv p c) : Inv p (run .repaired p c evs) := by
+/-- No step but a stall makes the claim key older. -/
+theorem age_step {p : Params} (c : Config) (e : Ev) (he : e ≠ .stall) :
+    (step .repaired p c e).st.claimAge ≤ c.st.claimAge := by
+  cases e with
+  | create => simp only [step]; split <;> simp
+  | expire => simp only [step]; split <;> simp
+  | stall => exact absurd rfl he
+  | th i =>
+    simp only [step]
+    cases hti : c.ths[i]? with
+    | none => simp
+    | some t =>
+      simp only
+      have hu := updateRec_age c.st t
+      unfold tstep
+      split
+      · unfold tstepMain
+        (repeat' split) <;> first
+          | exact Nat.le_refl _
+          | (simp only []; omega)
+          | (unfold claimStep; (repeat' split) <;> simp)
+          | (unfold getStepA; (repeat' split) <;> simp)
+          | (unfold getStepR; (repeat' split) <;> simp)
+          | (simp only [hu]; omega)
+      · split
+        · unfold tstepP; split <;> simp
+        · unfold tstepO; (repeat' split) <;> simp
+
+theorem age_stall {p : Params} (c : Config) (hl : c.st.claimAge + 1 < p.lease) :
+    (step .repaired p c .stall).st.claimAge ≤ c.st.claimAge + 1 := by
+  simp only [step]
+  split
+  · simp
+  · have hn : ¬ p.lease ≤ c.st.claimAge + 1 := by omega
+    simp [hn]
+
+/-- One event of a history whose stalls do not outlast the lease: the stall (if it is one) does not reach the
+lease, and the rest of the history still does not outlast it. -/
+theorem lease_next {p : Params} {c : Config} {e : Ev} {es : List Ev} (hl : leaseOk p c (e :: es) = true) :
+    (e = .stall → c.st.claimAge + 1 < p.lease) ∧ leaseOk p (step .repaired p c e) es = true := by
+  simp only [leaseOk, decide_eq_true_eq] at hl
+  by_cases he : e = .stall
+  · subst he
+    simp only [List.count_cons_self] at hl
+    have h1 : c.st.claimAge + 1 < p.lease := by omega
+    have := age_stall (p := p) c h1
+    exact ⟨fun _ => h1, by simp only [leaseOk, decide_eq_true_eq]; omega⟩
+  · have hc : (e :: es).count .stall = es.count .stall := by
+      rw [List.count_cons]; simp [he]
+    have := age_step (p := p) c e he
+    exact ⟨fun h' => absurd h' he, by simp only [leaseOk, decide_eq_true_eq]; omega⟩
+
+/-- The invariant along a history whose stalls do not outlast the lease. -/
+theorem inv_run {p c} (evs : List Ev) (h : Inv p c) (hl : leaseOk p c evs = true) : Inv p (run .repaired p c evs) := by
   induction evs generalizing c with
   | nil => exact h
-  | cons e es ih => exact ih (inv_step e h)
+  | cons e es ih => exact ih (inv_step e h (lease_next hl).1) (lease_next hl).2
 
 /-! ### from the invariant to the observation predicate -/
 
@@ -866,10 +943,11 @@ theorem inv_init {p : Params} (preC preN : Nat) (ths : List Thread) (hf : freshT
   · intro m hm; simp [init, initStore] at hm
   · intro m hm; simp [init, initStore] at hm
 
-theorem holdsCore_run {p : Params} (preC preN : Nat) (ths : List Thread) (evs : List Ev) (hf : freshThreads ths = true) :
+theorem holdsCore_run {p : Params} (preC preN : Nat) (ths : List Thread) (evs : List Ev) (hf : freshThreads ths = true)
+    (hl : leaseOk p (init preC preN ths) evs = true) :
     holdsCore p ((run .repaired p (init preC preN ths) evs).ths.map callOf)
       (obs (run .repaired p (init preC preN ths) evs)) = true :=
-  holdsCore_of_inv (inv_run evs (inv_init preC preN ths hf))
+  holdsCore_of_inv (inv_run evs (inv_init preC preN ths hf) hl)
 
 /-- The calls (kind, client, address) of a configuration never change. -/
 theorem calls_step {p : Params} (v : Variant) (c : Config) (e : Ev) :
@@ -877,6 +955,7 @@ theorem calls_step {p : Params} (v : Variant) (c : Config) (e : Ev) :
   cases e with
   | create => simp only [step]; split <;> rfl
   | expire => simp only [step]; split <;> rfl
+  | stall => simp only [step]; (repeat' split) <;> rfl
   | th i =>
     simp only [step]
     cases hti : c.ths[i]? with
